@@ -193,6 +193,29 @@ _add5("C17", "The escape state of UnquoteMbox is a flag raised only in the backs
 _add5("C18", "Diagnostic-Code text is cleared of CR and LF individually (R11).")
 _add5("C19", "Nothing registered with the configuration map is read before cfg.Process(): the pool is built from the processed settings (R10).")
 _add5("C20", "Import expansion is bounded in total by a budget shared with imported files, not only in depth (R3b).")
+# ---- sixth round (DESIGN.md §R.14)
+def _add8(id, text_extra):
+    tech, text, note, ref = CLAIMED[id]
+    CLAIMED[id] = (tech, text + " Sixth round: " + text_extra, note, ref + ", §R.14")
+_S8 = "E7 (a result computed per element of a list on every way round the loop and read after the loop is accumulated, never overwritten: no loop hands on the result for its last element only); E1-E4 are evaluated on every function of the packages the property is anchored in"
+for _id in list(CLAIMED):
+    _add8(_id, _S8 + ".")
+_add5("C01", "The status kept per failed recipient never has enhanced-code class 0: run-time codes are copied only under a test of their class digit (the report writer refuses class 0 and no report would be emitted) (R9).")
+_add5("C02", "The retry wheel's callback never waits on the wheel's own goroutine – no channel operation outside a select with default, no Wait / Sleep / TimeWheel.Add, directly or in synchronous callees (R10).")
+_add5("C03", "A function from the message reader to a buffer returns a buffer only when every read ended with nil or io.EOF and never reads through io.ReadFull / io.ReadAtLeast (a connection lost in mid-DATA is not the end of the message) (R8).")
+_add5("C05", "The extended resolver keeps a response's AD bit only under a loopback test of the server that answered (R10); a policy lookup goroutine completes the future created by its own call, never one re-read from the shared policy object (R11).")
+_add5("C06", "The result of every stage call on a check state is handed on whole on every path (R7); the action parser leaves Reject / Quarantine as the first argument says in each of its three worlds, custom reply or not (R8); the pipeline starts every target with its own metadata object (R5c).")
+_add5("C07", "No check result is dropped on the way to the merge (C06.R7 as R9b); targets hold the metadata object the quarantine verdict is written to (C06.R5/R5c as R9c); Apply's reject may be returned through a local policy variable.")
+_add5("C09", "The translating collector translates in one step: its table is always read with the key SetStatus was called with (K10).")
+_add5("C10", "A hand-written MarshalJSON on a record type writes every envelope field the property names; other hand-written (un)marshallers on record types are undecided (R2).")
+_add5("C11", "In a select between acquiring and giving up, the acquire case leads only to the constant success, a give-up case never to it (R9).")
+_add5("C12", "Every store into the record in tryDelivery is followed by updateMetadataOnDisk on every path to the re-scheduling (R11); a record read back after a restart carries no nil map tryDelivery writes to (C02.R7 as R12).")
+_add5("C13", "The AD bit is believed per answering server (C05.R10 as R5d); the lookup goroutine never completes its future in a deferred function (a panic would read as 'no TLSA records') (R6).")
+_add5("C14", "compute and verify of every hash tag apply the same functions to the password on its way to the KDF (R3f).")
+_add5("C15", "The *_action directives keep their flags through the shared parser (C06.R8 as R10); the sender's source block is selected with the normalised address, domain rule included (C04.R1r as R11).")
+_add5("C16", "SMTPCode and SMTPEnchCode classify with the same predicate (R2); in tryDelivery the error that is classified is the one stored as the recipient's status on every path (R3c).")
+_add5("C18", "Body / Commit errors are recorded for exactly the accepted recipients (C01.R2 as R12); the reported status is the one of the attempt that gave the recipient up (C16.R3c as R13).")
+_add5("C20", "Every node entering the tree, and every macro definition entering the macro table, passed expandMacros since it was read (R5); one pass of the environment clean-up expression leaves nothing the same expression matches, decided for the constant pattern over all strings of up to seven tokens of its alphabet (R7).")
 for _id in list(CLAIMED):
     tech, text, note, ref = CLAIMED[_id]
     CLAIMED[_id] = (tech, text, note + "; rules are form-agnostic (named booleans, if/switch, loop forms, extracted helpers, renamed unexported functions and fields – DESIGN.md §R.7) and measured against a corpus of 35 behaviour-preserving refactorings (functions the reference tree did not have are read as part of their callers – §R.10) (refactorings/, refacall.sh)", ref)
